@@ -61,6 +61,8 @@ def main():
             return ("C17",)
         if name.endswith("BeltStore_gate"):
             return ("C12", "C13")
+        if name == "ContBelt_is_stalled":
+            return ("C13",)
         if "_slot_before_" in name:
             return ("C08",)
         if name in ("Combiner_first_ingredient_edge", "Combiner_recipe_index"):
